@@ -11,7 +11,8 @@ from . import errors
 from .base import FS
 from .memoryfs import MemoryFS
 from .mode import validate_open_mode, validate_openbin_mode
-from .path import abspath, forcedir, normpath
+from .info import Info
+from .path import abspath, basename, forcedir, normpath, relpath
 
 if typing.TYPE_CHECKING:
     from typing import (
@@ -146,7 +147,16 @@ class MountFS(FS):
         # type: (Text, Optional[Collection[Text]]) -> Info
         self.check()
         fs, _path = self._delegate(path)
-        return fs.getinfo(_path, namespaces=namespaces)
+        info = fs.getinfo(_path, namespaces=namespaces)
+        if fs is not self.default_fs and not relpath(_path):
+            # the root of a mounted filesystem is known by the name of
+            # its mount point, as reported by listdir and scandir
+            name = basename(normpath(path))
+            if info.name != name:
+                raw = {ns: dict(values) for ns, values in info.raw.items()}
+                raw["basic"]["name"] = name
+                info = Info(raw)
+        return info
 
     def listdir(self, path):
         # type: (Text) -> List[Text]
